@@ -100,7 +100,7 @@ def snapshot(v, memo=None, depth=3):
         return v
     if id(v) in memo:
         return memo[id(v)]
-    if type(v).__name__ == 'TagLibrary':
+    if any(c_.__name__ == 'TagLibrary' for c_ in type(v).__mro__):
         s = NSnap()
         memo[id(v)] = s
         s.orig__ = v
